@@ -223,8 +223,72 @@ def m_enum_find_position(ex, st, callee, args):
     return [(None, step(st, 0, []))]
 
 
+def m_vec_index(ex, st, callee, args):
+    """<Vec<T> as Index<usize>>::index: &v[i], panics when i >= len"""
+    ref, v = _vec_at(ex, st, args[0])
+    idx = scalar(ex, st, args[1])
+    n = len(v.fields)
+    out = [(idx.e == k, Ref(ref.cell, ref.path + (k,))) for k in range(n)]
+    out.append((z3.UGE(idx.e, n), Panic("index out of bounds: the len is {} but the index is {}")))
+    return out
+
+
+def m_gc_default_vec(ex, st, callee, args):
+    return [(None, new_gc(st, gccell(Adt("Vec", None, ()))))]
+
+
+def m_clone_structural(ex, st, callee, args):
+    """Clone of a value whose model is an immutable tree (Option<..>, String, Rc handles: the handle is the value)"""
+    return [(None, _val(ex, st, args[0], depth=1) if isinstance(args[0], Ref) else args[0])]
+
+
+def m_cell_new(ex, st, callee, args):
+    return [(None, Adt("Cell", None, [args[0]]))]
+
+
+def m_cell_get(ex, st, callee, args):
+    c = _val(ex, st, args[0])
+    if not (isinstance(c, Adt) and c.ty == "Cell"):
+        raise Inconclusive("Cell::get on %r" % (c,))
+    return [(None, c.fields[0])]
+
+
+def m_cell_set(ex, st, callee, args):
+    ref = args[0]
+    n = 0
+    while n < 6:
+        v = ex.read(st, ref.cell, ref.path)
+        if isinstance(v, Ref):
+            ref = v
+            n += 1
+            continue
+        break
+    if not (isinstance(v, Adt) and v.ty == "Cell"):
+        raise Inconclusive("Cell::set on %r" % (v,))
+    ex.write(st, ref.cell, ref.path, Adt("Cell", None, [args[1]]))
+    return [(None, UNIT)]
+
+
+def m_opaque_handle(tag):
+    def h(ex, st, callee, args):
+        return [(None, Opaque(tag, None))]
+    return h
+
+
+def m_gcvector_with_capacity(ex, st, callee, args):
+    return [(None, Adt("Vec", None, ()))]
+
+
 def install(m):
     pre = [
+        (r"^<Option<.*> as Clone>::clone$|^<Rc<.*> as Clone>::clone$|^<String as Clone>::clone$", m_clone_structural),
+        (r"^<Vec<.*> as Index(Mut)?<usize>>::index(_mut)?$", m_vec_index),
+        (r"^<Gc<GcCell<Vec<.*>>> as Default>::default$", m_gc_default_vec),
+        (r"^Cell::<.*>::new$", m_cell_new),
+        (r"^Cell::<.*>::get$", m_cell_get),
+        (r"^Cell::<.*>::set$", m_cell_set),
+        (r"^context::Ctx::<'_>::rced_call_stack$", m_opaque_handle("call-stack")),
+        (r"^Vec::<.*>::with_capacity$", m_gcvector_with_capacity),
         (r"^<Vec<.*> as AsMut<Vec<.*>>>::as_mut$|^<Vec<.*> as AsMut<\[.*\]>>::as_mut$", m_identity),
         (r"^Vec::<.*>::append$", m_vec_append),
         (r"^(core::)?slice::<impl \[.*\]>::to_vec$|^<Vec<.*> as Clone>::clone$", m_to_vec),
